@@ -119,3 +119,51 @@ def t_fail_on_neg(x=0, *a, **k):
     if x < 0:
         raise ValueError('negative')
     return x * x
+
+
+# ---- C02: a menu of deterministic, picklable targets and values
+class Custom:
+    def __init__(self, a, b=None):
+        self.a, self.b = a, b
+
+    def __eq__(self, o):
+        return type(o) is Custom and (o.a, o.b) == (self.a, self.b)
+
+    def __repr__(self):
+        return f'Custom({self.a!r}, {self.b!r})'
+
+
+class MyError(Exception):
+    pass
+
+
+def f_add(a, b=1):
+    return a + b
+
+
+def f_none(*a, **k):
+    return None
+
+
+def f_falsy(kind):
+    return {'zero': 0, 'empty': '', 'list': [], 'false': False, 'dict': {}}[kind]
+
+
+def f_nested(n):
+    return {'k': [1, (2, 3), {'x': Custom(n, [n])}], 'n': n}
+
+
+def f_varargs(*args, **kwargs):
+    return (args, sorted(kwargs.items()))
+
+
+def f_bytes(n):
+    return b'x' * n
+
+
+def f_raise(kind, *args):
+    raise {'value': ValueError, 'key': KeyError, 'my': MyError, 'runtime': RuntimeError}[kind](*args)
+
+
+def f_custom(a):
+    return Custom(a, {'a': a})
